@@ -325,7 +325,7 @@ mut('C20', 'step-sign-dropped', 'def_file.py', 'do_step: "DO" NUMBER "BY" NUMBER
 mut('C10', 'sub-remove-without-detach', 'circuit.py', '                ll.reader = None\n                ll.remove()', '                ll.remove()', 'C10.pins')
 mut('C09', 'sub-remove-without-detach', 'circuit.py', '                ll.reader = None\n                ll.remove()', '                ll.remove()', 'C10.pins')
 mut('C16', 'dff-qn-from-q-line', 'sim.py', 'ops.append((INV1, n.outs[1].index, inp_idx, self.zero_idx', 'ops.append((INV1, n.outs[1].index, n.outs[0].index, self.zero_idx', 'C01.wiring')
-mut('C06', 'strip-port-forks', 'sim.py', '                if f in interface_dict: continue  # port forks (e.g. from bench) are evaluated as PI/PPI, their outputs are no branches\n', '', 'C08.alias')
+mut('C06', 'strip-port-forks', 'sim.py', '                if f in interface_dict: continue  # port forks (e.g. from bench) are evaluated as PI/PPI, their outputs are no branches\n', '', ['C08.alias', 'C07.level', 'C08.pins', 'C07.release'])
 mut('C01', 'release-inside-op-loop', 'sim.py', '                self.c_locs[o_idx], self.c_caps[o_idx] = h.alloc(cap), cap\n            if c_reuse:\n                for loc in free_set:\n                    h.free(loc)', '                self.c_locs[o_idx], self.c_caps[o_idx] = h.alloc(cap), cap\n                if c_reuse:\n                    for loc in free_set:\n                        h.free(loc)\n                    free_set = set()', 'C07.release')
 mut('C05', 'overflow-parity-lost', 'wave_sim.py', '                    previous_t = cbuf[z_mem + z_cur - 1, sim]\n                    z_cur -= 1', '                    previous_t = cbuf[z_mem + z_cur - 1, sim]', 'C03.parity')
 
